@@ -20,7 +20,7 @@ type Prop struct{}
 func (Prop) ID() string    { return "C05" }
 func (Prop) Level() string { return "exploration" }
 func (Prop) Rule() string {
-	return "keys: guided random ACL histories of 4-25 accepted records over owner + 6 accounts + invite-key holders, built only through the real AclRecordBuilder (join by request, open-invite join, direct add, remove, leave request + removal, invite revoke with/without rotation, stand-alone rotation, re-add by add / request / batch, permission changes incl. on accounts without permissions, 12% deliberately illegal attempts); 10 of every 14 cases start with a scripted scenario prefix. After every accepted record: fresh validating AND keep-identity views of every principal from the raw log, key material vs harness ground truth, explicit derivation closure over every ciphertext of the log, exact-recipient check of every read-key change. A history is non-trivial when it contains >= 1 key generation beyond the root, >= 2 members and >= 1 principal without permission were observed; distinct = accepted-operation sequence. trees: same generator (permission changes on accounts without permissions excluded, reported by the keys workload) with encrypted content written by current writers under each generation into a real any-store backed verifying tree; non-trivial = >= 2 generations carry content and >= 2 members read it back; distinct = accepted ops + write positions."
+	return "keys: guided random ACL histories of 4-25 accepted records over owner + 6 accounts + invite-key holders, built only through the real AclRecordBuilder (join by request, open-invite join, direct add, remove, leave request + removal, invite revoke with/without rotation, stand-alone rotation, re-add by add / request / batch, permission changes incl. on accounts without permissions, 12% deliberately illegal attempts); 10 of every 14 cases start with a scripted scenario prefix. After every accepted record: fresh validating AND keep-identity views of every principal from the raw log, key material vs harness ground truth, explicit derivation closure over every ciphertext of the log, exact-recipient check of every read-key change. A history is non-trivial when it contains >= 1 accepted removal (so an ex-member was observed against a later generation) and >= 2 members were observed at some point; distinct = accepted-operation sequence. trees: same generator (permission changes on accounts without permissions excluded, reported by the keys workload) with encrypted content written by current writers under each generation into a real any-store backed verifying tree; non-trivial = >= 2 generations carry content and >= 2 members read it back; distinct = accepted ops + write positions."
 }
 func (Prop) Assumptions() []string {
 	return []string{
@@ -193,7 +193,14 @@ func runKeys(c *lib.Case) {
 	for k, n := range w.BuilderPanics {
 		c.Count("keys.builder_panics."+k, int64(n))
 	}
-	if len(w.Gens) >= 2 && m.maxMembers >= 2 && m.sawNonMember {
+	removals := 0
+	for _, r := range w.Recs {
+		if len(r.Removed) > 0 {
+			removals++
+		}
+	}
+	c.Count("keys.histories_with_accepted_removal", int64(min(removals, 1)))
+	if removals >= 1 && m.maxMembers >= 2 && m.sawNonMember {
 		c.Nontrivial(strings.Join(ops, " "))
 	}
 	c.Sample(fmt.Sprintf("history-s%d", c.Index%scenarioCycle), map[string]any{"accepted_ops": ops, "generations": len(w.Gens)})
